@@ -37,7 +37,8 @@ func (c nodeContext) RenderSequence(w io.Writer, seq []Node) Error {
 			return err
 		}
 	}
-	if _, err := tw.Flush(); err != nil {
+	// the clause or end tag that closes the sequence is a barrier for pending trims
+	if err := tw.Barrier(); err != nil {
 		return wrapRenderError(err, invalidLoc)
 	}
 	return nil
@@ -57,8 +58,11 @@ func (n *BlockNode) render(w *trimWriter, ctx nodeContext) Error {
 	if renderer == nil {
 		panic(fmt.Errorf("unset renderer for %v", n))
 	}
-	err := renderer(w, rendererContext{ctx, nil, n})
-	return wrapRenderError(err, n)
+	if err := renderer(w, rendererContext{ctx, nil, n}); err != nil {
+		return wrapRenderError(err, n)
+	}
+	// the end tag of the block is a barrier as well
+	return wrapRenderError(w.Barrier(), n)
 }
 
 func (n *RawNode) render(w *trimWriter, ctx nodeContext) Error {
